@@ -1197,14 +1197,35 @@ def check_C13(ctx):
 # C14  print normal form
 # ---------------------------------------------------------------------------
 def parse_layout_date(layout, text):
-    """(y, m, d) of a date written in a layout made of 2006 / 01 / 02 and literals (fields the layout omits default to 0 / 1 / 1); raises when it does not fit"""
-    y, m, d = 0, 1, 1; i = 0; j = 0
-    while i < len(layout):
-        if layout.startswith("2006", i): y = int(text[j:j + 4]); assert len(text[j:j + 4]) == 4; i += 4; j += 4
-        elif layout.startswith("01", i): m = int(text[j:j + 2]); i += 2; j += 2
-        elif layout.startswith("02", i): d = int(text[j:j + 2]); i += 2; j += 2
+    """(y, m, d) of a date written in a layout made of 2006 / 01 / 02 / 1 / 2 / _2 / Jan / January and literals (fields the layout omits default to
+    0 / 1 / 1), read as Go's time.Parse reads it (numbers without padding take one digit, or two when a digit follows; month names in any letter case;
+    a blank of the layout matches a run of blanks); raises when it does not fit"""
+    y, m, d = 0, 1, 1; j = 0
+    def getnum():
+        nonlocal j
+        assert text[j:j + 1].isdigit()
+        n = 2 if text[j + 1:j + 2].isdigit() else 1
+        v = int(text[j:j + n]); j += n; return v
+    for kind, t in gen.layout_elements(layout):
+        if kind == "lit":
+            if t == " ":
+                assert j >= len(text) or text[j] == " "
+                while j < len(text) and text[j] == " ": j += 1
+            else:
+                assert text[j] == t; j += 1
+        elif t == "2006": assert len(text[j:j + 4]) == 4; y = int(text[j:j + 4]); j += 4
+        elif t == "01": assert len(text[j:j + 2]) == 2; m = int(text[j:j + 2]); j += 2
+        elif t == "02": assert len(text[j:j + 2]) == 2; d = int(text[j:j + 2]); j += 2
+        elif t == "1": m = getnum()
+        elif t == "2": d = getnum()
+        elif t == "_2":
+            if text[j:j + 1] == " ": j += 1
+            d = getnum()
         else:
-            assert text[j] == layout[i]; i += 1; j += 1
+            names = [n[:3] for n in gen.MONTHS] if t == "Jan" else gen.MONTHS
+            for k, n in enumerate(names):
+                if text[j:j + len(n)].lower() == n.lower(): m = k + 1; j += len(n); break
+            else: raise AssertionError("month name")
     assert j == len(text)
     return (y, m, d)
 
@@ -1236,8 +1257,15 @@ def check_C14(ctx):
     for k in range(ctx.scale(250, 4000)):
         toks = r.sample(["2006", "01", "02"], r.choice([1, 2, 3, 3, 3, 3]))
         if r.random() < 0.05: toks.append(r.choice(toks))
+        wide = r.random() < 0.3     # the elements without padding and the month names (layouts people write: `2 Jan 2006`, `2.1.2006`, `January 2 2006`)
+        if wide: toks = [dict({"01": r.choice(["1", "Jan", "January", "01"]), "02": r.choice(["2", "_2", "02"])}).get(t, t) for t in toks]
         layout = r.choice(["", "", "", "/", "."] + ([" "] if SPACES_IN_LAYOUTS else [])) if r.random() < 0.2 else ""
-        for j, t in enumerate(toks): layout += t + (r.choice(seps) if j + 1 < len(toks) else r.choice(["", "", "", ".", "/", "-"] + ([" "] if SPACES_IN_LAYOUTS else [])))
+        for j, t in enumerate(toks):
+            sep = (r.choice(seps) if j + 1 < len(toks) else r.choice(["", "", "", ".", "/", "-"] + ([" "] if SPACES_IN_LAYOUTS else [])))
+            if wide and j + 1 < len(toks) and t in ("1", "2", "_2") and sep == "": sep = r.choice(["/", ".", " ", "-"])     # a number without padding needs a separator to be read back
+            layout += t + sep
+        if wide and layout.startswith("_2"): layout = "02" + layout[2:]      # a layout that begins with _2 is the known finding KF4: generated in its own family below
+        if wide: ctx.tally("layout_sweep_wide_elements", " ".join(sorted(t for t in toks if t in ("1", "2", "_2", "Jan", "January"))) or "none")
         ds = [(2021, r.randint(1, 12), r.randint(1, 28)) for _ in range(r.randint(1, 3))]
         items = []
         for (y, m, d) in ds:
